@@ -243,6 +243,27 @@ def c05(ck):
     ck.extra["random_byte_strings"] = n
 
 
+def repl_sessions(ck, prop):
+    """Repl.tla (the interactive loop as a state machine over typed lines): TLC checks the machine's invariants on every
+    session over the line alphabet and emits every session with the outputs the specification prescribes; each session is
+    piped line by line into the real repl.Execute (child process).  -prop C16 judges segmentation, -prop C19 the values."""
+    q = ck.quick
+    # the state machine itself: invariants and action properties over all sessions
+    c = ("SPECIFICATION Spec\nCONSTANT Alphabet <- %s\nCONSTANT MaxLines = %d\n"
+         "INVARIANT BufferIsPending\nPROPERTY OneOutputPerStep\nPROPERTY QuietStepsKeepState\nCHECK_DEADLOCK FALSE\n"
+         % ("AlphaQuick", 2 if q else 3))
+    r = ck.tlc("Repl", c, timeout=1500, want_cases=False)
+    ck.tlc_ok(r, "Repl state machine")
+    c = ("SPECIFICATION GSpec\nCONSTANT Alphabet <- %s\nCONSTANT MaxLines = %d\nCONSTANT Sample = %d\nCHECK_DEADLOCK FALSE\n"
+         % ("AlphaQuick" if q else "AlphaMore", 3, 4 if q else 0))
+    r = ck.tlc("GenRepl", c, timeout=2400)
+    ck.tlc_ok(r, "GenRepl")
+    if not r.cases:
+        raise InfraError("GenRepl produced no cases")
+    ck.extra["repl_sessions"] = len(r.cases)
+    ck.replay(r.cases, args=["-prop", prop], timeout=3000)
+
+
 @check("C16")
 def c16(ck):
     ck.rule = ("every TOKEN sequence of length <= MaxLen over two 14-token alphabets (all bracket kinds, reader "
@@ -256,6 +277,7 @@ def c16(ck):
     for c in cases:
         seen.setdefault(c["text"], c)
     ck.replay(list(seen.values()), args=["-prop", "C16"])
+    repl_sessions(ck, "C16")
     ck.exhaustive = True
 
 
@@ -342,6 +364,7 @@ def c19(ck):
                "do, load-file); each compared with Def.tla's outcome: result, effect log, error-ness, globals")
     consts = {"MaxSize": 2 if ck.quick else 3}
     gen_and_replay(ck, "GenC19", consts, timeout=1500)
+    repl_sessions(ck, "C19")
     ck.exhaustive = True
     ck.extra["bounds"] = consts
 
